@@ -123,6 +123,13 @@ def gen1(seed, attempt):
                     or name + '.py' in host['files']:
                 continue
             host.setdefault('links', {})[name] = 'ext/' + target['name']
+            if rng.random() < 0.35:
+                # a second link to the very same directory: another package, not a loop
+                host2 = rng.choice(hosts)
+                name2 = 'also%d' % k
+                if name2 not in [d['name'] for d in host2['dirs']] and \
+                        name2 not in (host2.get('links') or {}):
+                    host2.setdefault('links', {})[name2] = 'ext/' + target['name']
     roots = ['root']
     nested = [rel for rel, node in fssim.walk_tree(tree)
               if rel != 'root' and all(IDENT(x) and x not in IGNORE_FOLDERS
